@@ -900,6 +900,23 @@ THR_PROGRAMS = [
 ]
 
 
+def _polling_select (thr):
+  """mc.thr.CSelect with a faithful zero-timeout poll: select(..., 0) is a scheduling point and returns what is
+  ready at once (CSelect would wait for the virtual deadline, i.e. until no other thread can run).  The unchanged
+  hub never passes a zero timeout; a hub that does must not be protected by the model."""
+  c = _CACHE.get(("psel", id(thr)))
+  if c is None:
+    class PollingCSelect (thr.CSelect):
+      def select (self, r, w, x, timeout=None):
+        if timeout is not None and timeout <= 0:
+          r, w, x = list(r), list(w), list(x)
+          self.S.point("select-poll")
+          return self._ready(r, w, x)
+        return thr.CSelect.select(self, r, w, x, timeout)
+    c = _CACHE[("psel", id(thr))] = PollingCSelect
+  return c
+
+
 def run_threaded (ctx, prog, fd_at, funcs=HANDOFF, max_points=8000, keep_log=False):
   from mc.env import boot
   boot()
@@ -912,7 +929,7 @@ def run_threaded (ctx, prog, fd_at, funcs=HANDOFF, max_points=8000, keep_log=Fal
   w.fd_at = fd_at
   TM = thr.CThreadingModule(S)
   R.threading = TM; R.Thread = TM.Thread; R.Queue = lambda: thr.CQueue(S)
-  R.select = thr.CSelect(S); R.time = thr.CTime(S); R.CYCLE_MAXIMUM = 1e9
+  R.select = _polling_select(thr)(S); R.time = thr.CTime(S); R.CYCLE_MAXIMUM = 1e9
   R.traceback = _QUIET
   U.makePinger = lambda: thr.CPinger(S)
   R.Scheduler.runThreaded = R.Scheduler._orig_runThreaded
